@@ -44,6 +44,20 @@ def check(run):
                 if r2:
                     stats, n, diffs = r2
             found = decide(run, stats, n, diffs, proofs_ok)
+            # per-pixel use of the blend in the blended-frame branch of composite_frame / read_frame (public API): animations with
+            # blended frames of every width parity against the independent canvas model (harness c06)
+            keep = run.rundir
+            run.rundir = keep / 'c06'
+            ok6, out6, st6 = vflib.run_harness('c06', run.tier, run.seed, run.rundir)
+            run.rundir = keep
+            if not ok6:
+                run.oblige('harness_run(c06)', False, out6[-1500:])
+            else:
+                stats['animation_component'] = {k: st6.get(k) for k in ('animations', 'frames', 'blend_transparent', 'blend_opaque', 'blend_mid', 'pixels_judged')}
+                for v in st6.get('violations_c06', [])[:1]:
+                    run.violation('blend_in_animation', {'what': 'blended animation frame violates the blend property through the public API', 'check': 'c06',
+                                                         'case': v.split(' -> ')[0], 'detail': v[-600:]})
+                    found = True
     failed = [o for o in run.obligations if not o[1]]
     if failed and not found:
         run.violation('obligation', {'what': 'proof obligation or model/code tie no longer checks; search found no failing input',
@@ -58,7 +72,7 @@ def check(run):
         extra_cov={'correspondence_cases': n, 'correspondence_disagreements': len(diffs),
                    'input_distribution': {k: stats.get(k) for k in ('transparent', 'opaque', 'mid', 'known_opaque_dec')},
                    'max_alpha_err_x255': stats.get('max_alpha_err_x255'), 'max_weighted_channel_err_milli': stats.get('max_chan_err_milli'),
-                   'exhaustive': bool(stats.get('exhaustive_2pow32'))},
+                   'exhaustive': bool(stats.get('exhaustive_2pow32')), 'animation_component': stats.get('animation_component')},
         assumptions=['blend kernel is the rs2v translation of alpha_blending.rs (regenerated this run)',
                      'u32::from_le_bytes/to_le_bytes wrapper hand-modelled; tied by correspondence through verif::blend'])
 
